@@ -1140,3 +1140,50 @@ Proof.
       * destruct Hs as (-> & _). lia.
     + destruct Hs as (-> & _). lia.
 Qed.
+
+(* ------------------------------------------------------------------------------------------- *)
+(* a full block that comes back in time is submitted, without waiting for the other relays *)
+
+(* Every call that is made and is answered with a full block before the deadline has something
+   submitted no later than the instant it returns -- whatever the other relays do (hang until the
+   context ends, fail, answer later, never give up).  With [blinded_submit_from_relay] (what is
+   submitted was delivered at the instant of the submission): the submission is the earliest full
+   block, the moment it is back. *)
+Lemma full_block_in_time_submitted : forall c e d pr i rl calls k st rq fc,
+  e_proposal e = POk pr -> full_container (p_version pr) = Some fc ->
+  nth_error (e_relays e) i = Some rl ->
+  nth_error (o_unblind (propose c e d)) i = Some calls ->
+  nth_error calls k = Some (st, rq) ->
+  is_ok (snd (script_nth (r_script rl) k)) = true ->
+  st + fst (script_nth (r_script rl) k) < e_deadline e ->
+  exists t sp, o_submit (propose c e d) = Some (t, sp) /\ t <= st + fst (script_nth (r_script rl) k).
+Proof.
+  intros c e d pr i rl calls k st rq fc Hp Hfc Hrl Hc Hk Hok Hlt.
+  destruct (sign_phase c e d) as [evs [[p sp0]|]] eqn:Hsp.
+  2:{ rewrite (propose_unsigned _ _ _ _ Hsp) in Hc. apply stop_unblind_nth in Hc; subst; destruct k; discriminate. }
+  destruct (propose_signed _ _ _ _ _ _ Hsp) as (Heq & acct & h & sig & code & _ & _ & (Hp' & _) & _ & _ & _ & -> & _).
+  rewrite Hp in Hp'; injection Hp' as <-. rewrite Heq in *.
+  destruct (deliver_call _ _ _ _ _ _ _ _ _ Hc Hk) as (Hbl & _ & _ & w & a & rl' & cl & Hau & Hin & Hrl' & Hcan & Hfree & Hst).
+  rewrite Hrl in Hrl'; injection Hrl' as <-.
+  pose proof (free_calls_nth _ _ _ _ _ _ Hfree) as (_ & Hout & Hfin & _).
+  assert (Hokc : is_ok (k_out cl) = true) by (rewrite Hout; exact Hok).
+  assert (Hf : k_finish cl = st + fst (script_nth (r_script rl) k)).
+  { rewrite Hfin, Hst. unfold finish_of. destruct (k_out cl); try discriminate; reflexivity. }
+  destruct (deliver_phase_course c e evs (signed_proposal pr h sig code)) as [Hb|Hb _|w' a' res Hb Ha Hcc plans fd _ _ _ Hs].
+  - congruence.
+  - apply stop_unblind_nth in Hc; subst; destruct k; discriminate.
+  - rewrite Hau in Ha. injection Ha as <- <-.
+    pose proof (plans_from_nth_some (e_deadline e) (candidates c w a) (e_relays e) 0%nat i rl Hrl) as Hplan.
+    cbn [Nat.add] in Hplan. fold plans in Hplan.
+    assert (Hdel : delivery (relay_plan (e_deadline e) (candidates c w a) i rl) = Some (k_finish cl)).
+    { unfold relay_plan. assert (He : existsb (Nat.eqb i) (candidates c w a) = true)
+        by (apply existsb_exists; exists i; split; [exact Hin|apply Nat.eqb_refl]).
+      rewrite He, Hcan. cbn [andb]. eapply plan_ok_delivery; eauto. }
+    destruct fd as [t0|] eqn:Hfd.
+    2:{ pose proof (first_delivery_none plans Hfd i _ Hplan) as Hn. congruence. }
+    destruct (first_delivery_some plans t0 Hfd) as (_ & Hmin).
+    pose proof (Hmin i _ _ Hplan Hdel) as Hle.
+    assert (Hdl : (t0 <? e_deadline e) = true) by (apply N.ltb_lt; lia).
+    rewrite Hdl in Hs. destruct Hs as (_ & Hs). cbn [sp_version signed_proposal] in Hs. rewrite Hfc in Hs.
+    eexists t0, _. split; [exact Hs|lia].
+Qed.
